@@ -47,7 +47,9 @@ var mutOps = []string{"paren", "comment", "alias", "block", "closure", "extract"
 //	optparenfn (cff.Task)(f)
 //	optclosure func() cff.Option { return cff.Task(...) }()
 //	toptvar    to := cff.Invoke(true); cff.Task(f, to)
-var freeOps = []string{"optvar", "optspread", "optconv", "optparenfn", "optclosure", "toptvar"}
+//	duptopt    cff.Task(f, cff.Invoke(true), cff.Invoke(true))   a task option given twice
+//	dupopt     cff.Concurrency(2), cff.Concurrency(2)            a directive option (not Task/Tasks/Slice/Map) given twice
+var freeOps = []string{"optvar", "optspread", "optconv", "optparenfn", "optclosure", "toptvar", "duptopt", "dupopt"}
 
 func isFreeOp(op string) bool {
 	for _, f := range freeOps {
@@ -399,6 +401,34 @@ func ApplyMut(src []byte, m Mut) (out []byte, label string, ok bool) {
 			{fi.off(first.Pos()), fi.off(first.Pos()), "[]" + fi.cffName + ".Option{"},
 			{fi.off(last.End()), fi.off(last.End()), "}..."},
 		}), "optspread", true
+	case "duptopt", "dupopt":
+		var cs []*ast.CallExpr
+		for _, d := range ds {
+			for _, a := range d.Args[1:] {
+				oc, ok := fi.isCffCall(a)
+				if !ok {
+					continue
+				}
+				if m.Op == "dupopt" {
+					if _, isWork := fi.isCffCall(a, "Task", "Tasks", "Slice", "Map"); !isWork {
+						cs = append(cs, oc)
+					}
+					continue
+				}
+				if _, isTask := fi.isCffCall(a, "Task", "Slice", "Map"); isTask && len(oc.Args) >= 2 {
+					for _, ta := range oc.Args[1:] {
+						if tc, ok := fi.isCffCall(ta); ok {
+							cs = append(cs, tc)
+						}
+					}
+				}
+			}
+		}
+		if len(cs) == 0 {
+			return src, "", false
+		}
+		o := cs[pick(len(cs))]
+		return applyEdits(src, []edit{{fi.off(o.End()), fi.off(o.End()), ", " + fi.text(o)}}), m.Op, true
 	case "toptvar":
 		type cand struct {
 			o *ast.CallExpr
